@@ -202,7 +202,7 @@ func checkC10(c *harness.Check) {
 		"position startpos moves g1f3 g8f6 f3g1 f6g8 g1f3 g8f6 f3g1",
 		"position startpos moves g1f3 g8f6 f3g1 f6g8 g1f3 g8f6 f3g1 f6g8",
 		"position startpos moves g1f3 g8f6 f3g1 f6g8 g1f3 g8f6 f3g1 f6g8 e2e4", // the game goes on after a draw could have been claimed (third occurrence)
-		"position fen r3k2r/8/8/8/8/8/8/R3K2R w KQkq - 99 60 moves a1b1 a8b8",   // ... and after the hundredth half-move
+		"position fen r3k2r/8/8/8/8/8/8/R3K2R w KQkq - 99 60 moves a1b1 a8b8",  // ... and after the hundredth half-move
 		"position startpos moves e2e4",
 		"position fen " + F,
 		"position fen " + F + " moves e1g1",
